@@ -318,7 +318,7 @@ fn enum_node(which: Which, p: &Pos, st: &mut Stats) -> CaseResult {
         }
         Which::C02 => {
             let s = gen_all(&b, hasher());
-            c02_node(&b, p, &s, true)?;
+            c02_node(&b, p, &s, false)?;
             if c02_nontrivial(p, false, st) {
                 st.nontrivial(fp(p));
             }
@@ -428,12 +428,6 @@ pub fn replay_c01_c02(which: Which, case: &Value) -> CaseResult {
     let (start, moves) = parse_game_case(case)?;
     let mut st = Stats::new();
     let r = walk_check(which, &start, &moves, &mut st);
-    if r.is_ok() && which == Which::C02 {
-        // placement families also check the key delta at the node itself
-        let b = board_of(&start)?;
-        let s = gen_all(&b, hasher());
-        c02_node(&b, &start, &s, true)?;
-    }
     r
 }
 
@@ -490,7 +484,7 @@ fn cap_tree(b: &BoardState, p: &Pos, ep_in_ancestry: bool, full_depth: u32, deep
     cx.nodes += 1;
     cx.st.eval();
     let succ = c01_node(b, p, true).map_err(|e| format!("{} [capture chain so far: {:?}]", e, names(path)))?;
-    c02_node(b, p, &succ, true).map_err(|e| format!("(capture-only successor) {} [capture chain so far: {:?}]", e, names(path)))?;
+    c02_node(b, p, &succ, false).map_err(|e| format!("(capture-only successor) {} [capture chain so far: {:?}]", e, names(path)))?;
     let caps: Vec<Move> = {
         let mut c: Vec<Move> = p.legal_moves().into_iter().filter(|m| p.is_capture(m)).collect();
         c.sort();
